@@ -980,19 +980,36 @@ def run(w, rep, tier):
     rep.rule("C19.matrix", "matrix branches copy element (i, j) to (i, j) (column-major linear index on the CasADi side)")
     rep.rule("C19.plumb", "recursion forwards the operands in order and the caller's own tables")
     rep.rule("C19.cse", "cse=True path: the sympy.cse temporaries are eliminated in reverse definition order")
+    from .c19_value import check_sympy_value
+    value_ok = check_sympy_value(w, rep)
+
+    class IdiomReport:
+        """The sympy-side idiom rules report through this: where the value rule has decided every construct of the converter,
+        an idiom they do not recognise is not a gap in the verdict (n/a with that reason); their violations stand."""
+
+        def __getattr__(self, k):
+            return getattr(rep, k)
+
+        def incomplete(self, rule, inst, msg, where=None, **kw):
+            if value_ok:
+                return rep.na(rule, inst, "spelling not recognised by the idiom rule (%s); the construct is decided on its value by C19.value" % msg)
+            return rep.incomplete(rule, inst, msg, where=where, **kw)
     cx = Ctx(w, rep)
     casadi_side(cx)
-    sympy_side(cx)
-    cse_order(w, rep)
+    sympy_side(Ctx(w, IdiomReport()))
+    cse_order(w, IdiomReport())
+    relaxed = value_ok and any(o.status == "na" and "C19.value" in (o.msg or "") for o in rep.obs)
     rep.floor("C19.table", 34)
-    rep.floor("C19.dispatch", 110)
-    rep.floor("C19.leaf", 8)
-    rep.floor("C19.func", 4)
-    rep.floor("C19.fold", 2)
-    rep.floor("C19.symtab", 2)
-    rep.floor("C19.matrix", 2)
+    # instance counts confirmed by hand; when the sympy side is spelled in a way the idiom rules do not read (and C19.value
+    # decides it) only the CasADi side contributes
+    rep.floor("C19.dispatch", 110 if not relaxed else 90)
+    rep.floor("C19.leaf", 8 if not relaxed else 1)
+    rep.floor("C19.func", 4 if not relaxed else 0)
+    rep.floor("C19.fold", 2 if not relaxed else 0)
+    rep.floor("C19.symtab", 2 if not relaxed else 1)
+    rep.floor("C19.matrix", 2 if not relaxed else 1)
     rep.floor("C19.plumb", 8)
-    rep.floor("C19.fmap", 1)
+    rep.floor("C19.fmap", 1 if not relaxed else 0)
     rep.undecided_clause("value preservation for arbitrary expression trees (round trip through both libraries): needs running sympy and CasADi")
     rep.undecided_clause("the cse=True path of _sympy_parser beyond the substitution order (removal of the temporaries from the symbol table)")
     rep.undecided_clause("agreement at NaN/inf, at branch cuts of pow/log/inverse trigonometric functions, and float vs exact arithmetic of constants")
